@@ -85,6 +85,17 @@ func VerifCalcCueItvls(segStart, segDur, utcStart, cueDur int) [][3]int {
 // VerifMsToTTMLTime wraps msToTTMLTime.
 func VerifMsToTTMLTime(ms int) string { return msToTTMLTime(ms) }
 
+// VerifShiftTTML wraps shiftTTMLTimestamps (all timestamps of a TTML document moved by timeShiftMS).
+func VerifShiftTTML(data string, timeShiftMS uint64) (string, error) {
+	out, err := shiftTTMLTimestamps([]byte(data), timeShiftMS)
+	return string(out), err
+}
+
+// VerifStppShiftMS is the conversion of a decode-time shift to milliseconds made by shiftStppTimes.
+func VerifStppShiftMS(timeShift uint64, timescale uint32) uint64 {
+	return uint64(math.Round(float64(timeShift) / float64(timescale) * 1000.0))
+}
+
 // VerifStateAt parses one traffic pattern and evaluates it at nowS: 0 unknown, 1 up, 2 404, 3 slow, 4 hang.
 func VerifStateAt(pattern string, nowS int) (int, error) {
 	li, err := CreateLossItvls(pattern)
